@@ -236,6 +236,7 @@ type answer struct {
 
 type syncObs struct {
 	snapshot map[string][]byte // the destination store right after this sync
+	allowed  map[string]bool   // keys pre-stored, or requested by this or an earlier sync and answered with bytes that hash to them
 	ok       bool
 	err      string
 	panic    string
@@ -311,6 +312,10 @@ func runScn(c *vlib.Ctx, sc Scn, verbose bool) {
 	}
 	corruptN := 0
 	var obs []syncObs
+	allowed := map[string]bool{}
+	for _, p := range sc.Pre {
+		allowed[syncdrv.DSKey(w.Blocks[p.Rank-1].Cid).String()] = true
+	}
 	for _, sy := range sc.Syncs {
 		var so syncObs
 		srv.Pub.SetRoot(w.CidOf(sy.Head))
@@ -331,6 +336,7 @@ func runScn(c *vlib.Ctx, sc Scn, verbose bool) {
 				switch {
 				case hashesTo(body, rc):
 					a.content, a.good = a.req, true
+					allowed[syncdrv.DSKey(rc).String()] = true
 					if a.req != syncdrv.ForeignRank && !bytes.Equal(body, w.Blocks[a.req-1].Raw) {
 						a.content = -1 // other bytes with the same digest: a real collision
 					}
@@ -400,6 +406,10 @@ func runScn(c *vlib.Ctx, sc Scn, verbose bool) {
 		}
 		srv.TakeLog()
 		so.snapshot = sub.StoreEntries()
+		so.allowed = map[string]bool{}
+		for k := range allowed {
+			so.allowed[k] = true
+		}
 		obs = append(obs, so)
 		c.Eval()
 	}
@@ -407,9 +417,13 @@ func runScn(c *vlib.Ctx, sc Scn, verbose bool) {
 	srv.Reset(nil, nil)
 
 	// ---- the audit: every key/value of the destination store, after every sync ----
-	audit := func(entries map[string][]byte) [][2]int {
+	audit := func(entries map[string][]byte, allowed map[string]bool) [][2]int {
 		var out [][2]int
 		for k, v := range entries {
+			if !allowed[k] {
+				failOnce(c, "unrequested-stored", fmt.Sprintf("unrequested-block-stored:%s:%s", sc.Hash, faultSig(sc)),
+					fmt.Sprintf("the destination store holds %d bytes under the key %s, which was neither there before the run nor requested by any sync of this subscriber and answered with bytes that hash to it: the publisher put a block of its choosing into the store", len(v), k), sc)
+			}
 			kc, err := cid.Decode(strings.TrimPrefix(k, "/"))
 			if err != nil {
 				failOnce(c, "audit-key", "audit:unparsable-key:"+k, "the destination store holds a key that is not a CID", sc)
@@ -436,7 +450,7 @@ func runScn(c *vlib.Ctx, sc Scn, verbose bool) {
 	}
 	var final [][2]int
 	for _, so := range obs {
-		final = audit(so.snapshot)
+		final = audit(so.snapshot, so.allowed)
 	}
 
 	// ---- per sync oracles ----
@@ -637,6 +651,6 @@ func main() {
 		return
 	}
 	c.Res.Exhaustive = false
-	c.Res.Rule = "advertisement chains of length 1..4 (sha2-256) and 3 (sha2-256 truncated to 16 / 20, sha2-512, blake2b-256, identity), entries chains of length 2: at every request position of the sync, unsegmented and with segment size 1 / 2: 16 (quick) single-bit flips spread over the body, truncation at sampled lengths (every length for the entry chunks), 1 / 3 / 100 appended bytes, the empty body, a 4 MiB body, blocks whose genuine size is exactly 4 MiB - 1 / 4 MiB / 4 MiB + 1 (raw-codec and dag-json) served exactly, with 1 / 4096 appended bytes and cut by one byte, the body of every other block, status 404 / 500 / 204, a 200 answer cut in mid-body (full Content-Length, k bytes, connection closed; k = 0, 1, half, len-1) followed by good answers to any repeated request and by a clean second sync, on dag-json chains and on raw-codec leaf blocks; the same lie patterns with the destination link system's TrustedStorage = true; chains mixing hash functions: a sha2-256 advertisement linking a FORGED CID that names sha2-512/32, sha2-512-256, sha3-256, blake2b-256, blake3, dbl-sha2-256 or a 32-byte identity multihash with the digest SHA2-256(body), within one walk, across syncs of one subscriber, and with the forged CID fetched first; CIDs naming multihash codes the subscriber has no implementation of (0x1012, 0xb401, 0x7777, 0x300001, 0x1100, 0xd4, 0x1053, 0xb3e0 as far as multihash.GetHasher refuses them; digests of 20 / 32 / 64 bytes) and available functions with an over-long digest, linked from a genuine sha2-256 advertisement or asked for directly, trusted and untrusted, segment size off / 1, depth 1 / 2, served as is, flipped, substituted, empty or 404; two faults in one sync; pre-stored sound and corrupt entries; sequences of failing and succeeding syncs on one subscriber. non-trivial = a fault that was actually delivered"
+	c.Res.Rule = "advertisement chains of length 1..4 (sha2-256) and 3 (sha2-256 truncated to 16 / 20, sha2-512, blake2b-256, identity), entries chains of length 2: at every request position of the sync, unsegmented and with segment size 1 / 2: 16 (quick) single-bit flips spread over the body, truncation at sampled lengths (every length for the entry chunks), 1 / 3 / 100 appended bytes, the empty body, a 4 MiB body, blocks whose genuine size is exactly 4 MiB - 1 / 4 MiB / 4 MiB + 1 (raw-codec and dag-json) served exactly, with 1 / 4096 appended bytes and cut by one byte, the body of every other block, status 404 / 500 / 204, a 200 answer cut in mid-body (full Content-Length, k bytes, connection closed; k = 0, 1, half, len-1) followed by good answers to any repeated request and by a clean second sync, on dag-json chains and on raw-codec leaf blocks; the same lie patterns with the destination link system's TrustedStorage = true; chains mixing hash functions: a sha2-256 advertisement linking a FORGED CID that names sha2-512/32, sha2-512-256, sha3-256, blake2b-256, blake3, dbl-sha2-256 or a 32-byte identity multihash with the digest SHA2-256(body), within one walk, across syncs of one subscriber, and with the forged CID fetched first; CIDs naming multihash codes the subscriber has no implementation of (0x1012, 0xb401, 0x7777, 0x300001, 0x1100, 0xd4, 0x1053, 0xb3e0 as far as multihash.GetHasher refuses them; digests of 20 / 32 / 64 bytes) and available functions with an over-long digest, linked from a genuine sha2-256 advertisement or asked for directly, trusted and untrusted, segment size off / 1, depth 1 / 2, served as is, flipped, substituted, empty or 404; two faults in one sync; after every sync every key of the destination store was pre-stored or requested by a sync of this subscriber and answered with bytes that hash to it; pre-stored sound and corrupt entries; sequences of failing and succeeding syncs on one subscriber. non-trivial = a fault that was actually delivered"
 	gen(c)
 }
